@@ -424,6 +424,50 @@ pub fn c18(tier: &str, seed: u64) {
       }
       stat("oracle.C18.runs");
     }
+    // HISTORY: a long-lived server polled with several batches. Second batch: every measurement cut
+    // down to at most t-1 reports except a few kept whole; third batch: everything again. Each
+    // answer must be the one a fresh server gives for that batch alone.
+    if !huge && case_i % 3 != 2 && !clients.is_empty() {
+      let mut count: BTreeMap<Vec<u8>, usize> = BTreeMap::new();
+      let mut keep_whole: BTreeMap<Vec<u8>, bool> = BTreeMap::new();
+      let mut cut_idx: Vec<usize> = Vec::new();
+      for (i, (m, _)) in clients.iter().enumerate() {
+        let whole = *keep_whole.entry(m.clone()).or_insert_with(|| g.chance(1, 4));
+        let c = count.entry(m.clone()).or_insert(0);
+        *c += 1;
+        if whole || *c < t as usize {
+          cut_idx.push(i);
+        }
+      }
+      let all_idx: Vec<usize> = (0..clients.len()).collect();
+      let idx_batches = vec![all_idx.clone(), cut_idx, all_idx];
+      let batches: Vec<Vec<Message>> = idx_batches.iter().map(|ix| ix.iter().map(|&i| msgs[i].clone()).collect()).collect();
+      let threads = g.range(1, 8) as usize;
+      let outs = run_server_history(t, &epoch, &batches, threads);
+      for (bi, (ix, o)) in idx_batches.iter().zip(outs).enumerate() {
+        let mut sp: BTreeMap<Vec<u8>, Vec<Option<Vec<u8>>>> = BTreeMap::new();
+        for &i in ix {
+          sp.entry(clients[i].0.clone()).or_default().push(clients[i].1.clone());
+        }
+        sp.retain(|_, v| v.len() >= t as usize);
+        let norm = |x: &Option<Vec<u8>>| match x { Some(d) if d.is_empty() => None, o => o.clone() };
+        let want: Bag = sp.iter().map(|(m, v)| { let mut a: Vec<_> = v.iter().map(norm).collect(); a.sort(); (m.clone(), vec![a]) }).collect();
+        let what = format!("one server object, batch {} of 3 (all reports / measurements cut below the threshold / all reports)", bi + 1);
+        match o {
+          None => fail("server_panicked", &desc(&what, ix, threads, "")),
+          Some(outs) => {
+            let got: Bag = bag(&outs).into_iter().map(|(m, vs)| (m, vs.into_iter().map(|v| { let mut a: Vec<_> = v.iter().map(norm).collect(); a.sort(); a }).collect())).collect();
+            if got != want {
+              let kind = if got.keys().any(|k| !want.contains_key(k)) { "below_threshold_measurement_output" } else if want.keys().any(|k| !got.contains_key(k)) { "measurement_missing" } else { "wrong_associated_data" };
+              let mut d = desc(&what, ix, threads, &show_bag(&got));
+              d.push(("expected_for_this_batch", show_bag(&want).chars().take(2000).collect()));
+              fail(kind, &d);
+            }
+          }
+        }
+        stat("oracle.C18.server_reused_across_batches");
+      }
+    }
     case(!spec.is_empty());
     stat_n("oracle.C18.groups", ngroups as u64);
     if case_i == 2 {
